@@ -13,6 +13,8 @@ import os
 from dataclasses import dataclass, field
 from typing import Iterator
 
+from .normalize import fold_single_use_temporaries
+
 SRC_ROOTS = ("guppylang/src", "guppylang-internals/src")
 
 
@@ -168,6 +170,8 @@ class SourceIndex:
                     try:
                         src = open(p, encoding="utf-8").read()
                         tree = ast.parse(src, filename=p)
+                        # canonical form: `t = E; return t` / `raise t` / `if t:` with a single-use local t is `return E` / ... (normalize.py)
+                        self.normalised = getattr(self, "normalised", 0) + fold_single_use_temporaries(tree)
                     except (SyntaxError, UnicodeDecodeError) as e:
                         self.parse_errors.append(f"{rel}: {e}")
                         continue
